@@ -3,8 +3,9 @@
 //   virtual clock: every reading advances by a symbolic amount, every timed wait that runs into its
 //   deadline may overshoot by a symbolic lateness; while the loop waits (mutex released) the
 //   environment may request a stop (verif_wait_hook).
-//   symbolic : clock advance per reading, lateness per wait, requested deltas, start lag behind the wall clock
-//   enumerated: at which wait the stop request is injected (or never)
+//   symbolic : requested deltas, start lag behind the wall clock (made concrete by solver-driven enumeration where
+//              they determine a wait deadline)
+//   enumerated: lateness of every timed wait, time taken by evaluations, at which wait the stop request is injected
 //   oracle   : evaluation time strictly increases; a node scheduled for logical T runs at exactly T and the
 //              wall clock read inside that cycle is >= T; every wake-up due before end is delivered (late when
 //              lagging) unless a stop came first; after a stop request no further cycle starts and run() returns.
@@ -22,8 +23,8 @@
 #ifndef WIN
 #define WIN 8
 #endif
-#ifndef CLK_STEP_MAX_US
-#define CLK_STEP_MAX_US 2
+#ifndef BUSY_MAX_US
+#define BUSY_MAX_US 2
 #endif
 #ifndef LATE_MAX_US
 #define LATE_MAX_US 2
@@ -68,6 +69,7 @@ struct Sched {
         }
         out.set(j);
         n.set(j + 1);
+        if (k == 0) verif_clock_set_ns(verif_clock_ns() + 1000 * (std::int64_t)verif_choice("busy_us", BUSY_MAX_US + 1));  // evaluation takes time
     }
 };
 struct Top {
@@ -96,7 +98,9 @@ extern "C" int harness_main() {
     // the run starts at the wall clock or up to 3 us in the past (a lagging start), never in the future
     std::int64_t lag = verif_range("lag", 0, 3);
     g_stop_at_wait = verif_choice("stop_at_wait", MAX_WAITS + 1) - 1;  // -1: never
-    verif_clock_config(0, CLK_STEP_MAX_US * 1000, LATE_MAX_US * 1000);
+    // clock reads do not advance time by themselves; time passes while waiting (deadline + enumerated lateness)
+    // and while evaluating (a node 'takes' an enumerated number of microseconds)
+    verif_clock_config(0, 0, LATE_MAX_US);
     DateTime wall0 = wall_now_us();
     g_start = wall0 - TimeDelta{lag};
     g_end = g_start + TimeDelta{WIN};
